@@ -47,7 +47,7 @@ SCHED = {
     "C04": dict(kinds=["scan", "split"], classes=["nullvalue", "linearizability", "order", "status"]),
     "C06": dict(kinds=["nodeset", "scan"], classes=["nodeset"]),
     "C09": dict(kinds=["split", "point", "scan", "cursor"], classes=["progress", "structure", "lockorder"], trace=True),
-    "C07": dict(kinds=["epoch"], classes=["epoch", "nullvalue", "ledger", "progress"], trace=True, runs_scale=0.2),
+    "C07": dict(kinds=["epoch"], classes=["epoch", "nullvalue", "ledger", "progress"], trace=True, runs_scale=0.4, monitor="epoch"),
     # concurrent clauses of properties whose sequential part is checked by the seq engine
     "C10": dict(kinds=["cursor"], classes=["nullvalue", "linearizability", "order", "status"]),
     "C08": dict(kinds=["split", "point"], classes=["structure", "ledger"]),
@@ -144,7 +144,7 @@ def check_unit(prop, tier, seed):
 # ---------------------------------------------------------------- seq engine
 def seq_plan(prop, tier, seed):
     spec = SEQ[prop]
-    per = 3 if tier == "quick" else 40
+    per = 8 if tier == "quick" else 60
     ops = 150 if tier == "quick" else 300
     plan = []
     for p in spec["profiles"]:
@@ -289,8 +289,8 @@ def sched_run(prop, tier, seed, replay_path=None):
         if rc != 0:
             fails.append({"kind": "crash", "detail": (err2 or "")[-800:], "found": True, "workload": rp["workload"], "schedule": rp.get("schedule", []), "pre": rp.get("pre", {})})
         return {"sched_evaluations": 1}, fails
-    nwl = 24 if tier == "quick" else 400
-    runs = max(3, int((25 if tier == "quick" else 120) * spec.get("runs_scale", 1)))
+    nwl = 96 if tier == "quick" else 1200
+    runs = max(3, int((30 if tier == "quick" else 150) * spec.get("runs_scale", 1)))
     jobs = []
     for kind in spec["kinds"]:
         for i in range(nwl // len(spec["kinds"]) + 1):
@@ -299,7 +299,7 @@ def sched_run(prop, tier, seed, replay_path=None):
     def one(job):
         kind, sd = job
         text, pre, meta = schedeng.make_workload(sd, kind)
-        res = {"meta": meta, "text": text, "pre": pre, "nruns": 0, "steps": 0, "ops": 0, "fails": [], "acq": 0}
+        res = {"meta": meta, "text": text, "pre": pre, "nruns": 0, "steps": 0, "ops": 0, "fails": [], "acq": 0, "mon": {}}
         rc, out, err2 = schedeng.run_workload(binary, text, runs, sd * 100, "sticky" if sd % 3 == 0 else "random", trace=bool(spec.get("trace")))
         rr = hist.parse(out)
         res["nruns"] = len(rr)
@@ -311,13 +311,22 @@ def sched_run(prop, tier, seed, replay_path=None):
             res["ops"] += len(r.h)
             for cls, msg in hist.check_run(r, pre, spec["classes"]):
                 res["fails"].append((cls, msg, r.sched))
-            if spec.get("trace"):
+            if spec.get("trace") and not spec.get("monitor"):
                 nacq, cyc, leftover = hist.lock_order(r)
                 res["acq"] += nacq
                 if cyc:
                     res["fails"].append(("lockorder", "lock acquisition order has a cycle: %s" % " -> ".join(cyc), r.sched))
                 if leftover:
                     res["fails"].append(("lockorder", "locks still held after all operations returned: %s" % leftover, r.sched))
+        if spec.get("monitor"):
+            m = subprocess.run([vlib.YAKMODEL, spec["monitor"]], input=out, capture_output=True, text=True)
+            for l in m.stdout.splitlines():
+                if l.startswith("DIFF"):
+                    res["fails"].append(("monitor", l[:500], []))
+                elif l.startswith("STATS"):
+                    for kv in l.split()[1:]:
+                        k, _, v = kv.partition("=")
+                        res["mon"][k] = res["mon"].get(k, 0) + int(v)
         if rc != 0:
             res["fails"].append(("crash", "scheddrv exit %d: %s" % (rc, (err2 or "")[-600:]), []))
         return res
@@ -327,7 +336,7 @@ def sched_run(prop, tier, seed, replay_path=None):
     for r in results:
         shapes[r["meta"]["shape"]] = shapes.get(r["meta"]["shape"], 0) + r["nruns"]
         for cls, msg, sch in r["fails"][:1]:
-            fails.append({"kind": cls, "detail": msg, "found": True, "workload": r["text"], "schedule": sch,
+            fails.append({"kind": cls, "detail": msg, "found": cls != "monitor", "workload": r["text"], "schedule": sch,
                           "pre": {k.hex(): v for k, v in r["pre"].items()}})
     cov = {
         "sched_evaluations": sum(r["nruns"] for r in results),
@@ -337,6 +346,7 @@ def sched_run(prop, tier, seed, replay_path=None):
         "sched_operations": sum(r["ops"] for r in results),
         "sched_runs_per_shape": shapes,
         "sched_lock_acquisitions_analysed": sum(r["acq"] for r in results),
+        "lean_monitor": {k: sum(r["mon"].get(k, 0) for r in results) for k in sorted({k for r in results for k in r["mon"]})},
         "sched_sample": results[0]["text"].splitlines()[:14] if results else [],
     }
     return cov, fails
